@@ -180,6 +180,87 @@ jwe_case = st.fixed_dictionaries({"kind": st.just("jwe"), "plan": jweplan.plans(
                                   "form": st.sampled_from(KEYFORMS), "jwt": st.booleans()})
 
 
+gen_case = st.fixed_dictionaries({
+    "kind": st.just("gen"),
+    "what": st.sampled_from([["EC", "P-256"], ["EC", "P-384"], ["EC", "P-521"], ["EC", "secp256k1"], ["OKP", "Ed25519"], ["OKP", "Ed448"], ["OKP", "X25519"], ["OKP", "X448"],
+                             ["RSA", 1024], ["oct", 128], ["oct", 256]]),
+    "via": st.sampled_from(["class", "class-positional", "registry-positional", "registry-keyword", "keyset", "keyset-positional"]),
+    "with_params": st.booleans(), "auto_kid": st.booleans(), "count": st.integers(1, 3)})
+
+
+def run_gen(c) -> tuple:
+    """Keys generated as public-only (private=False) through every generating entry point, arguments in the documented order."""
+    from joserfc.jwk import JWKRegistry, KeySet, OctKey, RSAKey, ECKey, OKPKey
+    f, kinds = {}, []
+    kty, arg = c["what"]
+    params = {"use": "enc"} if c["with_params"] and kty != "OKP" else None
+    cls = {"oct": OctKey, "RSA": RSAKey, "EC": ECKey, "OKP": OKPKey}[kty]
+    via = c["via"]
+    tag = f"{kty}:{via}"
+    try:
+        if via == "class":
+            keys = [cls.generate_key(arg, params, private=False, auto_kid=c["auto_kid"])]
+        elif via == "class-positional":
+            keys = [cls.generate_key(arg, params, False, c["auto_kid"])]
+        elif via == "registry-positional":
+            keys = [JWKRegistry.generate_key(kty, arg, params, False, c["auto_kid"])]
+        elif via == "registry-keyword":
+            keys = [JWKRegistry.generate_key(kty, arg, parameters=params, private=False, auto_kid=c["auto_kid"])]
+        elif via == "keyset":
+            ks = KeySet.generate_key_set(kty, arg, parameters=params, private=False, count=c["count"])
+            keys = list(ks.keys)
+        else:
+            ks = KeySet.generate_key_set(kty, arg, params, False, c["count"])
+            keys = list(ks.keys)
+    except Exception:
+        kinds.append("generate-public-refused")
+        if kty != "oct":
+            # asymmetric public-only generation is documented; a refusal is not a leak, merely recorded
+            pass
+        return f, kinds
+    if via.startswith("keyset") and len(keys) != c["count"]:
+        f[f"C12:generated-set-size:{tag}"] = f"{len(keys)} keys for count={c['count']}"
+    outs = []
+    for k in keys:
+        kinds.append("generated-public")
+        if k.is_private:
+            f[f"C12:public-only-generation-yields-private-key:{tag}"] = f"generate(..., private=False) returned a key with is_private=True ({kty} {arg})"
+        outs.append(("as_dict", k.as_dict()))
+        if kty != "oct":
+            for name, thunk in (("as_pem", lambda: k.as_pem()), ("as_der", lambda: k.as_der()), ("as_pem-public", lambda: k.as_pem(private=False))):
+                try:
+                    outs.append((name, thunk()))
+                except Exception:
+                    pass
+        try:
+            out = k.as_dict(private=True)
+            f[f"C12:private-export-from-generated-public-key-not-refused:{tag}"] = f"as_dict(private=True) returned {sorted(out)}"
+        except Exception:
+            pass
+    if via.startswith("keyset"):
+        try:
+            outs.append(("KeySet.as_dict", ks.as_dict()))
+        except Exception:
+            pass
+    for name, out in outs:
+        kinds.append(f"generated-public:{name}")
+        dicts = out["keys"] if isinstance(out, dict) and isinstance(out.get("keys"), list) else [out] if isinstance(out, dict) else []
+        for d in dicts:
+            bad = PRIVATE_MEMBERS & set(d)
+            if bad:
+                f[f"C12:private-member-names-in:generated-public:{name}:{tag}"] = f"{name} of a key generated with private=False has members {sorted(bad)}"
+        if isinstance(out, bytes) and (b"PRIVATE KEY" in out):
+            f[f"C12:private-pem-from-generated-public:{name}:{tag}"] = out[:40].decode("latin-1")
+        if isinstance(out, bytes) and name == "as_der":
+            from cryptography.hazmat.primitives.serialization import load_der_private_key
+            try:
+                load_der_private_key(out, None)
+                f[f"C12:private-der-from-generated-public:{tag}"] = "default DER export of a key generated with private=False loads as a private key"
+            except Exception:
+                pass
+    return f, kinds
+
+
 def _params(p):
     p = dict(p)
     uo = p.pop("use_ops", None)
@@ -347,11 +428,14 @@ def run_case(c):
             return run_key(c)
         if c["kind"] == "jws":
             return run_jws(c)
+        if c["kind"] == "gen":
+            return run_gen(c)
         return run_jwe(c)
 
 
 def shards(tier):
-    return [(f"k{i}", {"part": "key"}) for i in range(5)] + [(f"s{i}", {"part": "jws"}) for i in range(4)] + [(f"e{i}", {"part": "jwe"}) for i in range(7)]
+    return ([(f"k{i}", {"part": "key"}) for i in range(5)] + [(f"s{i}", {"part": "jws"}) for i in range(4)] + [(f"e{i}", {"part": "jwe"}) for i in range(6)] +
+            [("g0", {"part": "gen"})])
 
 
 def run_shard(ctx, spec):
@@ -367,6 +451,9 @@ def run_shard(ctx, spec):
             ref = gk.key_from_record(c["key"])
             label = (gk.describe(ref), c["form"], tuple(sorted(c["params"])))
             sample = {"kind": "key", "kty": ref["kty"], "crv": ref.get("crv"), "form": c["form"], "outputs": sorted(set(kinds))}
+        elif c["kind"] == "gen":
+            label = ("gen", tuple(c["what"]), c["via"], c["with_params"], c["auto_kid"])
+            sample = {"kind": "gen", "what": c["what"], "via": c["via"], "outputs": sorted(set(kinds))}
         elif c["kind"] == "jws":
             label = ("jws", jwsplan.plan_label(c["plan"]), c["keymode"])
             sample = {"kind": "jws", "algs": [m["alg"] for m in c["plan"]["members"]], "ser": c["plan"]["ser"], "keymode": c["keymode"]}
@@ -378,8 +465,8 @@ def run_shard(ctx, spec):
         ctx.case(label, cls=[f"kind:{c['kind']}"], sample=sample, n=len(kinds))
         for k, w in f.items():
             ctx.finding(k, w, c)
-    strat = {"key": key_case, "jws": jws_case, "jwe": jwe_case}[spec["part"]]
-    n = {"key": 260, "jws": 250, "jwe": 200}[spec["part"]]
+    strat = {"key": key_case, "jws": jws_case, "jwe": jwe_case, "gen": gen_case}[spec["part"]]
+    n = {"key": 260, "jws": 250, "jwe": 200, "gen": 600}[spec["part"]]
     drive(ctx, spec["part"], strat, body, n if ctx.tier == "quick" else n * 12)
 
 
